@@ -245,7 +245,7 @@ func (env *Env) run(c *Case) *Result {
 			}
 		case "slash":
 			targetOpt = target + "/"
-		case "rel", "default", "raw", "short", "tilde":
+		case "rel", "default", "raw", "short", "tilde", "dotdot":
 			cwd, err := os.Getwd()
 			if err != nil {
 				res.Infra = "getwd: " + err.Error()
@@ -268,6 +268,17 @@ func (env *Env) run(c *Case) *Result {
 				}
 				os.Symlink("target", filepath.Join(base, "work", "t"))
 				targetOpt = "t"
+			} else if c.Opts.TargetOpt == "dotdot" {
+				// "lnk/../target": lexically the target beside the working directory; resolved by the kernel, lnk (a symbolic link
+				// to far/deep) leads to far/target, an empty decoy directory. The library joins paths lexically (filepath.Join).
+				if err := os.Chdir(filepath.Join(base, "work")); err != nil {
+					res.Infra = "chdir: " + err.Error()
+					return res
+				}
+				os.MkdirAll(filepath.Join(base, "work", "far", "deep"), 0o755)
+				os.MkdirAll(filepath.Join(base, "work", "far", "target"), 0o755)
+				os.Symlink("far/deep", filepath.Join(base, "work", "lnk"))
+				targetOpt = "lnk/../target"
 			} else if c.Opts.TargetOpt == "rel" {
 				if err := os.Chdir(filepath.Join(base, "work")); err != nil {
 					res.Infra = "chdir: " + err.Error()
